@@ -201,6 +201,37 @@ func c10IdentityChain(r *core.Report) {
 				}
 			}
 		}
+		// comparisons made through the metadata's own Assert helpers (C10.R6 decides that they return nil only on equality):
+		// `if err := X.Meta().AssertEpoch(ep.Epoch()); err != nil { return }` - the err == nil side is the compared side
+		for _, n := range stmtNodes(g) {
+			as, ok := n.Ast.(*ast.AssignStmt)
+			if !ok || len(as.Rhs) != 1 || len(as.Lhs) != 1 {
+				continue
+			}
+			c, ok := core.Unparen(as.Rhs[0]).(*ast.CallExpr)
+			if !ok || len(c.Args) != 1 || !mentionsX(c.Fun) {
+				continue
+			}
+			nm := core.CalleeName(info, c)
+			isEpoch := strings.HasSuffix(nm, "Metadata).AssertEpoch") && strings.Contains(core.ExprStr(c.Args[0]), "ep.Epoch()")
+			isRoot := strings.HasSuffix(nm, "Metadata).AssertRootCid") && core.ObjOf(info, c.Args[0]) == rootVar
+			if !isEpoch && !isRoot {
+				continue
+			}
+			eo := core.ObjOf(info, as.Lhs[0])
+			for _, e := range g.Nodes {
+				if e.Kind != core.KEdge || e.Ast == nil || !g.Dominates(n, e) {
+					continue
+				}
+				if x, isNil, isCmp := core.NilCompare(info, e.Ast.(ast.Expr)); isCmp && core.ObjOf(info, x) == eo && isNil == e.Truth && leadsToErrorOnly(g, f, siblingEdge(e)) {
+					if isEpoch {
+						epochEdge[e] = true
+					} else {
+						rootEdge[e] = true
+					}
+				}
+			}
+		}
 		// the assignment that starts the chain: rootVar = X.Meta().RootCid
 		for _, n := range stmtNodes(g) {
 			if as, ok := n.Ast.(*ast.AssignStmt); ok && len(as.Lhs) == 1 && len(as.Rhs) == 1 && core.ObjOf(info, as.Lhs[0]) == rootVar && mentionsX(as.Rhs[0]) {
